@@ -111,6 +111,16 @@ package schema
 //@   at call extendedProviderKeyFetcher#1: after ghost fetched := result0
 //@   at call Seal#1: assert ite(ad.ExtendedProvider.Providers[rangeindex].ID == ad.Provider, arg1 == key, arg1 == fetched)
 //@   loop 1: invariant ad.ExtendedProvider != nil && rangeindex < len(ad.ExtendedProvider.Providers) && adOK(ad)
+// every entry is signed by this call, whatever signature it carried before (signing an advertisement again
+// after changing it must not leave stale entry signatures behind): each completed iteration seals once,
+// marshals that envelope and stores the result in the entry; no entry is skipped and the loop is not left early
+//@   ghost genv := zero("*record.Envelope")
+//@   ghost gsig := zero("[]byte")
+//@   at call Seal#1: after ghost genv := result0
+//@   at call Marshal#1: assert arg0 == genv
+//@   at call Marshal#1: after ghost gsig := result0
+//@   loop 1: iteration ensures itercount("call:Seal") == 1 && itercount("call:Marshal") == 1 && ad.ExtendedProvider.Providers[rangeindex].Signature == gsig
+//@   loop 1: exhaustive
 
 //@ func (*Advertisement).Sign
 //@   property C05
